@@ -29,7 +29,7 @@ for name in sorted(os.listdir(f'{V}/seeded'), key=lambda s:(s.split('-')[0], s))
     title=(readme.strip().split('\n')[0].lstrip('# ').strip() if readme else name)
     title=re.sub(r'^(C\d+\s*/\s*)?[Mm]utation\s*\d+\s*[-—–:]*\s*','',title).strip()
     needs=''
-    mm=re.search(r'##+\s*What is needed[^\n]*\n(.*?)(\n##|\Z)',readme,re.S)
+    mm=re.search(r'##+\s*(?:What is needed|What it needs|Needs|What .*? needs?|Exactly what it needs|How to trigger|Trigger)[^\n]*\n(.*?)(\n##|\Z)',readme,re.S|re.I)
     if mm: needs=re.sub(r'\s+',' ',mm.group(1)).strip()[:900]
     verify=''
     vl=f'{d}/verify.log'
